@@ -302,6 +302,14 @@ fn enumerate(seed: u64, shard: u64, shards: u64) -> Tally {
                     continue;
                 }
                 if check_events(&mut t, &case, &rec, sname, class, car) {
+                    // the authenticator's own route (crate feature `unstable`) sees the provider exactly as the entry point does
+                    if si % 5 == 0 {
+                        if let Some(v) = crate::mon::mon_direct_route(&case, &rec) {
+                            t.violate(v);
+                            continue;
+                        }
+                        t.count("direct_route_agrees");
+                    }
                     // the same validation with the crate's own adapter (`service_for_signing_key_fn` around a closure) as the
                     // provider: same outcome, same single call with the same arguments
                     if case.script.ready_pending == 0 && case.script.ans_pending == 0 && case.script.ready_err.is_none() {
